@@ -30,7 +30,7 @@ class Buffer:
         if padding is Padding.LEFT:
             if content_length < byte_length:
                 content = b'\x00' * (byte_length - len(content)) + content
-            content = content[-byte_length:]
+            content = content[len(content)-byte_length:]
             if padding_length > 0:
                 mask: bytes = (0xff >> padding_length) & 0xff
                 first_byte = (content[0] & mask).to_bytes(1, 'big')
